@@ -11,7 +11,7 @@ TMOD = "server/AcceptDispatchTrace.tla"
 SMOD = "server/AcceptDispatchStrict.tla"
 VARIANTS = ["IgnoreUnknownIdx", "UnlinkOnDeregister", "ResumeClearsBackoff", "IncBeforeSend", "NoClearOnLimit", "ResumeSkipsAcceptAll",
             "BackoffNeverReregisters", "RoundRobinStuck", "ConnErrIsFatal", "WakeSkipsAcceptAll", "PauseKeepsRegistered",
-            "RejoinPausedNoAvail", "ResetSeparate"]
+            "RejoinPausedNoAvail", "ResetSeparate", "JumpToFirstAvailable"]
 
 
 def read_cfg_constants(cfg):
@@ -433,11 +433,16 @@ def _corrupt(pred, run, w, limit):
         st["accepted"] = st["accepted"] + [c]
         st["backlog"] = [[x for x in b if x != c] for b in st["backlog"]]
     elif pred in ("T_C04_RoundRobin", "T_C04_RoundRobinMeasured"):
-        st["dlog"] = [[n + 1, 0, True, 1, False, 0, True] for n in range(w + 1)]
+        st["dlog"] = [[n + 1, 0, True, 1, False, 0, True, [False] * w] for n in range(w + 1)]
         if w < 2:
             return None
     elif pred == "T_C04_SaturatedGetsNothing":
-        st["dlog"] = st["dlog"] + [[901, 0, False, limit + 1, False, 0, False]]
+        st["dlog"] = st["dlog"] + [[901, 0, False, limit + 1, False, 0, False, []]]
+    elif pred == "T_C04_SkipsOnlyUnavailable":
+        if w < 2:
+            return None
+        # the same worker twice in a row although every other worker is marked available
+        st["dlog"] = [[n + 1, 0, False, 1, False, 0, False, [True] * w] for n in range(2)]
     elif pred == "T_C05_PausedNoDispatch":
         run[k]["pausedDispatch"] = True
     elif pred == "T_C05_UdsReachable":
